@@ -86,6 +86,21 @@ known("KF14-to-prolog-evidence-on-deterministic-nodes", ["C25"],
       "0.5::f. a :- f, a. query(a). evidence(a, false).",
       match_any=[{"clause": c, "variant": v, "has_evidence": True} for c in EXP_CL for v in ("export", "export-dag")])
 
+known("KF17-sampler-propagate-evidence-rejects-everything", ["C22"],
+      "sample --propagate-evidence: when an evidence atom is decided without sampling (negative evidence on an atom that has no matching fact, evidence on a derived atom that is deterministically true/false given the propagated facts), verify_evidence's propagated-evidence path rejects every sample, so the sampler never produces one",
+      "0.5::g(c1). 0.4::h. query(h). evidence(g(c2),false).   sample(model, propagate_evidence=True) rejects all samples",
+      match={"clause": "all-samples-rejected", "variant": "propagate_evidence"})
+known("KF18-sampler-propagate-evidence-distribution", ["C22"],
+      "sample --propagate-evidence forces the propagated atoms (probability 1.0 / 0.0) but does not renormalise the remaining mass of annotated disjunctions nor condition the other choices, so the samples do not follow P(. | evidence)",
+      "0.4::a; 0.3::b; 0.1::c. query(c). evidence(a,false). evidence(\\+b).   frequency of c is 0.1, P(c | evidence) = 1/3",
+      match={"clause": "sample-distribution", "variant": "propagate_evidence"})
+
+known("KF19-py2pl-tuple-encoding-not-injective", ["C28"],
+      "py2pl encodes the tuple (a, b, c) as ','(a, ','(b, c)), the same term as (a, (b, c)): a tuple nested in the LAST position of a tuple is flattened by the round trip (TLC finds the counterexample on the encoding model PyPlMC_all.cfg)",
+      "pl2py(py2pl((1, (2, 3)))) == (1, 2, 3)",
+      match={"clause": "nested-last-tuple-flattened", "via": "pypl"})
+fixed("FX19-pl2py-strips-inner-quotes", ["C28"], "968384f", "pl2py removed every quote character from strings: pl2py(py2pl(\"it's\")) == 'its'", "pl2py(py2pl(\"it's\"))")
+
 fixed("FX3-symbolic-normalize-parentheses", ["C05"], "75632d5",
       "SemiringSymbolic.normalize printed a / z without parentheses around a product z: expression evaluates to a wrong number",
       "0.6::f. 0.8::h(c2). 0.1::a. p :- h(c2), f. query(a). evidence(p).  symbolic result 0.8*0.6*0.1 / 0.8*0.6*(0.1 + (1-0.1)) = 0.036, expected 0.1")
